@@ -85,7 +85,7 @@ def run(ctx):
     # ---------------------------------------------------------------- runtime part: -race harnesses with serial replay
     thorough = ctx.tier == "thorough"
     st = {}
-    rounds = {"controller": [], "speaker": []}
+    rounds = {"controller": [], "speaker": [], "layer2": []}
     env = {"VERIF_RAW_HANDLERS": ",".join(raw_handlers)} if raw_handlers else {}
 
     def harness(pkg, n, seed, tag):
@@ -114,17 +114,44 @@ def run(ctx):
         elif not okrun and not failed and not any("does not build" in c for c in ctx.corr_broken):
             ctx.corr_broken.append("race harness for ./%s failed: %s" % (pkg, log[-1500:]))
 
+    def spam_queue(seed, tag):
+        recs, okrun, log = ctx.go_harness("internal/layer2", ["zz_verif.go", "zz_verif_ann_test.go"], "TestVerifSpamQueue$", seed=seed, tag=tag,
+                                          race=True, timeout=300)
+        failed = False
+        for r in recs:
+            if r.get("t") == "fail":
+                failed = True
+                if r.get("sig", "").startswith("c20-"):   # "l2-" signatures belong to C13
+                    ctx.oracle_fail(r.get("sig", "?"), r.get("what", ""), r.get("replay"))
+            elif r.get("t") == "stat":
+                st[r["k"]] = st.get(r["k"], 0) + r["v"]
+            elif r.get("t") == "case":
+                rounds["layer2"].append(r)
+        if "WARNING: DATA RACE" in log:
+            m = re.search(r"WARNING: DATA RACE.*?={18}", log, re.S)
+            ctx.oracle_fail("c20-data-race-layer2", "the race detector reports a data race in the announcer / spam loop",
+                            {"race_report": (m.group(0) if m else log[-5000:])[:7000]})
+        elif "test timed out" in log:
+            ctx.oracle_fail("c20-deadlock-layer2", "the spam-queue schedule did not terminate", {"log": log[-5000:]})
+        elif not okrun and not failed and not any("does not build" in c for c in ctx.corr_broken):
+            ctx.corr_broken.append("TestVerifSpamQueue failed: %s" % log[-1500:])
+
     n = 3 if not thorough else 40
+    spam_queue(ctx.seed, "spq")
     harness("controller", n, ctx.seed, "ctl")
     harness("speaker", n, ctx.seed, "spk")
 
     if not ctx.violations:
         for k in ("controller_events", "controller_fetches_consumed", "controller_final_assigned_services",
-                  "speaker_events", "speaker_fetches_consumed", "speaker_final_l2_or_bgp_announcements"):
+                  "speaker_events", "speaker_fetches_consumed", "speaker_final_l2_or_bgp_announcements",
+                  "spamqueue_handler_released_by_loop", "spamqueue_service_events", "spamqueue_status_fetches"):
             if st.get(k, 0) == 0 and not ctx.corr_broken:
                 raise vlib.Broken("race harness degenerate: %s = 0 (%r)" % (k, st))
 
     def search():
+        spam_queue(ctx.seed * 1000 + 5, "sq")
+        if ctx.violations:
+            return
         for k in range(3):
             harness("speaker", 12, ctx.seed * 1000 + 11 + k, "ss%d" % k)
             harness("controller", 12, ctx.seed * 1000 + 11 + k, "sc%d" % k)
@@ -132,6 +159,7 @@ def run(ctx):
                 return
 
     allrounds = rounds["controller"] + rounds["speaker"]
+    nq = len(rounds["layer2"])
     distinct = len({json.dumps(r["in"], sort_keys=True) for r in allrounds
                     if any(("ips=[" in v and "ips=[]" not in v) or (k.startswith(("l2 ", "peers ")) and v)
                            for k, v in r["in"]["state"].items())})
@@ -152,8 +180,9 @@ def run(ctx):
     ]
     ctx.assumptions += ["handlers are deterministic functions of (state, event) on the generated events (one auto-assignable pool; Allocate ranges over a map of candidate pools otherwise) — "
                         "needed to compare the concurrent final state with the serial replay address by address"]
-    ctx.finish(len(allrounds) + len(OBLIGATIONS), distinct,
+    ctx.finish(len(allrounds) + nq + len(OBLIGATIONS), distinct + nq,
                "race rounds: 240/300 (thorough 1200/1500) generated events per round delivered by 4-8 goroutines through the real k8s.Listener wrappers, 3 reconciler-like goroutines "
                "consuming CountersForPool / GetStatus / PeersForService (+ the spam loop's gratuitous), under go test -race, final state vs serial replay in recorded acquisition order; "
-               "non-trivial = final state holds at least one assignment / announcement; distinct by seed+state; plus the 8 vm_compute obligations on the facts regenerated from the Go AST",
+               "non-trivial = final state holds at least one assignment / announcement; plus the spam-queue schedules (announcer built as New() with a small queue and the REAL spamLoop: "
+               "full queue with a waiting handler vs GetStatus/shouldAnnounce, and a re-processing burst across a 1.1 s loop period under a 3 s no-progress watchdog); distinct by seed+state; plus the 8 vm_compute obligations on the facts regenerated from the Go AST",
                [{"seed": r["in"]["seed"], "workers": r["in"]["workers"], "events": r["in"]["events"]} for r in allrounds[:3]], search=search)
